@@ -221,8 +221,8 @@ class RebuildCheck:
             for P in ([2 * B] if quick else [B, 2 * B, 4 * B]):
                 for sh in ["S1", "D1", "D2n", "D3", "D3s", "D3x", "D3n"]:
                     n = world.nfiles(sh)
-                    top = (P + 2 if quick else 2 * P + 1) if n >= 3 else \
-                        2 * P + 1
+                    top = (P + 2 if quick else min(2 * P + 1, 9)) \
+                        if n >= 3 else 2 * P + 1
                     alpha = list(range(0, top + 1))
                     for g in e1.size_groups(sh, alpha):
                         gs.append({"kind": "world", "scale": "S", "B": B,
